@@ -62,6 +62,8 @@ class BuiltinMixin:
                                  args=[ast.GeneratorExp(elt=gnode.elt, generators=gnode.generators[1:])], keywords=[])
                 ast.copy_location(inner, gnode)
                 ast.fix_missing_locations(inner)
+                if self._skolem_here:
+                    self.goal_pos.add(id(inner))
                 gnode = ast.GeneratorExp(elt=inner, generators=[g])
             st.frames.append(dict(frame) if not self.spec_mode else dict(st.env))
             try:
@@ -99,6 +101,14 @@ class BuiltinMixin:
                 return pybool(universal)
             return V(("bool",), z3.And(*acc) if universal else z3.Or(*acc))
         i = z3.Int(self.ctx.fresh_name("qi"))
+        # goal position (positive occurrence in a clause being proved): the bound index becomes an arbitrary constant
+        skolem = universal and self._skolem_here
+        self._skolem_here = False
+        binder = {"var": i, "fresh": []}
+        if not skolem:
+            self.ctx.bound_stack.append(binder)
+            cache_keys = set(self._axiom_cache)
+            axs_before = set(st.axs)
         # evaluate the body with a symbolic index; the body of a quantified spec must be pure
         st.frames.append(dict(st.env))
         saved_mode = self.spec_mode
@@ -112,18 +122,36 @@ class BuiltinMixin:
         finally:
             self.spec_mode = saved_mode
             st.frames.pop()
+            if not skolem:
+                self.ctx.bound_stack.pop()
         added = st.pc[mark + 1:]
         del st.pc[mark:]
+        base_rng = z3.And(i >= 0, i < n_len)
         rng = z3.And(i >= 0, i < n_len, *conds)
+        if skolem:
+            for f in added:
+                st.pc.append(f if f.get_id() in self._axiom_ids else z3.Implies(base_rng, f))
+            return V(("bool",), z3.Implies(rng, b))
+        # instances created for this bound index are specific to it: forget them, their facts stay under the binder
+        for k_ in set(self._axiom_cache) - cache_keys:
+            del self._axiom_cache[k_]
+        st.axs.intersection_update(axs_before)
+        fresh = binder["fresh"]
+        subs = []
+        for c in fresh:
+            f = z3.Function(c.decl().name() + "_q", z3.IntSort(), c.sort())
+            subs.append((c, f(i)))
+        fz = (lambda e: z3.substitute(e, *subs)) if subs else (lambda e: e)
         # facts introduced while evaluating the body (well-formedness of read references, axiom instances)
         side = []
         for f in added:
-            if f.get_id() in self._axiom_ids and not _has_var_free(f, i):
+            if f.get_id() in self._axiom_ids and not _has_var_free(f, i) and not any(_has_var_free(f, c) for c in fresh):
                 st.pc.append(f)
             else:
-                side.append(f)
+                side.append(fz(f))
         if side:
-            st.assume(z3.ForAll([i], z3.Implies(z3.And(i >= 0, i < n_len), z3.And(*side))))
+            st.assume(z3.ForAll([i], z3.Implies(base_rng, z3.And(*side))))
+        b, rng = fz(b), fz(rng)
         pats = self._patterns(i, b, rng)
         if universal:
             body = z3.Implies(rng, b)
@@ -151,7 +179,11 @@ class BuiltinMixin:
         return [e for e in found.values() if _pattern_ok(e)][:3]
 
     def b_all(self, st, args, kw, node):
-        return self._quantify_gen(st, args[0], node, True)
+        self._skolem_here = id(node) in self.goal_pos
+        try:
+            return self._quantify_gen(st, args[0], node, True)
+        finally:
+            self._skolem_here = False
 
     def b_any(self, st, args, kw, node):
         return self._quantify_gen(st, args[0], node, False)
